@@ -155,16 +155,17 @@ theorem flat_transforms_refine (s : Sched) (f : Flat) (hwf : f.WF) (hn : 0 < f.l
 
 open RS.RustE RS.SrcE RS.SrcEng in
 /-- the transform loop nests AS TRANSLATED FROM TODAY'S SOURCE (`Gen/SrcEngine.lean`, regenerated by
-    `/verif/translate/rs2lean_engine.py` on every run: `Naive::{fft, ifft}` and `{NoSimd, Ssse3, Avx2}::
+    `/verif/translate/rs2lean_engine.py` on every run: `Naive::{fft, ifft}` and `{NoSimd, Ssse3, Avx2, Neon}::
     {fft_private, ifft_private}` with their helpers inlined — nested loops, `usize` arithmetic, skew-table
     indexes, views, `GF_MODULUS` shortcuts — evaluated to the program of shard operations they perform):
-    the three two-layer engines have literally the same program, and for every size `2^n ≤ 65536`, truncated
+    the four two-layer engines have literally the same program, and for every size `2^n ≤ 65536`, truncated
     size, position and skew offset no `usize` operation overflows, no loop runs out of fuel, no
     `debug_assert!` fails, and the program, run on any shard array, IS the model transform of that schedule -/
 theorem source_engine_loops_are_model {V : Type} [ShardAlg V] [LawfulShardAlg V] (a : Array V)
     (pos n trunc delta : Nat) (ht : trunc ≤ 2 ^ n) (hn : n ≤ 16)
     (hb : pos + 2 ^ n + delta ≤ 9223372036854775808) (h : pos + 2 ^ n ≤ a.size) :
-    (Ssse3_fft = NoSimd_fft ∧ Avx2_fft = NoSimd_fft ∧ Ssse3_ifft = NoSimd_ifft ∧ Avx2_ifft = NoSimd_ifft) ∧
+    (Ssse3_fft = NoSimd_fft ∧ Avx2_fft = NoSimd_fft ∧ Ssse3_ifft = NoSimd_ifft ∧ Avx2_ifft = NoSimd_ifft ∧
+      Neon_fft = NoSimd_fft ∧ Neon_ifft = NoSimd_ifft) ∧
     (∃ ops, Naive_fft pos (2 ^ n) trunc delta skewZero = some ops ∧
       runE ops a = fft .naive a pos (2 ^ n) trunc delta) ∧
     (∃ ops, Naive_ifft pos (2 ^ n) trunc delta skewZero = some ops ∧
@@ -173,7 +174,7 @@ theorem source_engine_loops_are_model {V : Type} [ShardAlg V] [LawfulShardAlg V]
       runE ops a = fft .twoLayer a pos (2 ^ n) trunc delta) ∧
     (∃ ops, NoSimd_ifft pos (2 ^ n) trunc delta skewZero = some ops ∧
       runE ops a = ifft .twoLayer a pos (2 ^ n) trunc delta) :=
-  ⟨⟨ssse3_fft_eq, avx2_fft_eq, ssse3_ifft_eq, avx2_ifft_eq⟩,
+  ⟨⟨ssse3_fft_eq, avx2_fft_eq, ssse3_ifft_eq, avx2_ifft_eq, neon_fft_eq, neon_ifft_eq⟩,
    src_naive_fft_model a pos n trunc delta ht hn hb h, src_naive_ifft_model a pos n trunc delta ht hn hb h,
    src_two_fft_model a pos n trunc delta ht hn hb h, src_two_ifft_model a pos n trunc delta ht hn hb h⟩
 
